@@ -334,3 +334,90 @@ fn utf8_encoder_read_step() { utf8_read_step::<2, 5, 11>(); }
 #[kani::proof]
 #[kani::unwind(8)]
 fn utf8_encoder_read_step_big() { utf8_read_step::<3, 6, 15>(); }
+
+// ---- U-ENC-R: Encoder::from_reader (peek up to 4 bytes, detect, chain them back) ------------------------
+
+/// A BufRead source that hands out at most `chunk` bytes per read / fill_buf.
+struct Dribble { data: [u8; 8], len: usize, pos: usize, chunk: usize }
+impl Read for Dribble {
+	fn read(&mut self, buf: &mut [u8]) -> io::Result<usize> {
+		let k = std::cmp::min(std::cmp::min(self.len - self.pos, buf.len()), self.chunk);
+		let mut i = 0; while i < k { buf[i] = self.data[self.pos + i]; i += 1; }
+		self.pos += k;
+		Ok(k)
+	}
+}
+impl BufRead for Dribble {
+	fn fill_buf(&mut self) -> io::Result<&[u8]> { let e = std::cmp::min(self.len, self.pos + self.chunk); Ok(&self.data[self.pos..e]) }
+	fn consume(&mut self, amt: usize) { self.pos += amt; }
+}
+
+// executable statement of the documented contract of std::io::copy: everything the reader yields until EOF is
+// written to the writer, in order (std's real body zero-fills an 8 KiB stack buffer first: 8192 loop iterations)
+fn io_copy_contract<R: ?Sized + Read, W: ?Sized + Write>(reader: &mut R, writer: &mut W) -> io::Result<u64> {
+	let mut total = 0u64; let mut tmp = [0u8; 4]; let mut guard = 0;
+	loop {
+		guard += 1; if guard > 8 { kani::assume(false); }
+		let n = reader.read(&mut tmp)?;
+		if n == 0 { return Ok(total); }
+		writer.write_all(&tmp[..n])?;
+		total += n as u64;
+	}
+}
+
+fn drain_all<R: Read>(mut r: R, out: &mut [u8; 12]) -> usize {
+	let mut total = 0; let mut guard = 0;
+	loop {
+		guard += 1; if guard > 10 { return 99; }
+		let mut tmp = [0u8; 8];
+		match r.read(&mut tmp) { Ok(0) => return total, Ok(n) => { let mut i = 0; while i < n { if total + i < 12 { out[total + i] = tmp[i]; } i += 1; } total += n; } Err(_) => return 98 }
+	}
+}
+
+fn passthrough_case(data: [u8; 8], len: usize, chunk: usize) {
+	if spec_detect(&data[..len]) != 0 { return; }
+	let r = match Encoder::from_reader(Dribble { data, len, pos: 0, chunk }) { Ok(r) => r, Err(_) => { assert!(false); return; } };
+	let mut out = [0u8; 12];
+	let total = drain_all(r, &mut out);
+	assert!(total == len, "bytes lost or duplicated around the encoding-detection peek");
+	let mut i = 0; while i < len { assert!(out[i] == data[i], "bytes altered around the encoding-detection peek"); i += 1; }
+}
+
+/// UTF-8-detected streams (contents symbolic) for a set of concrete (length, bytes-per-read) configurations that
+/// cut the 4-byte peek in every way: every byte comes out once, in order -- the peeked prefix is neither lost nor
+/// duplicated, whatever the read sizes.  (Symbolic lengths / read sizes timed out; sizes are enumerated.)
+#[kani::proof]
+#[kani::unwind(12)]
+#[kani::stub(std::io::copy, io_copy_contract)]
+fn encoder_from_reader_utf8_passthrough() {
+	let data: [u8; 8] = kani::any();
+	passthrough_case(data, 6, 1);
+	passthrough_case(data, 3, 2);
+	passthrough_case(data, 5, 3);
+	passthrough_case(data, 4, 4);
+	passthrough_case(data, 0, 1);
+}
+
+fn utf16_case(bom: bool, a: u8, b: u8, chunk: usize) {
+	let mut data = [0u8; 8];
+	let len = if bom { data[0] = 0xff; data[1] = 0xfe; data[2] = a; data[4] = b; 6 } else { data[0] = a; data[2] = b; 4 };
+	let r = match Encoder::from_reader(Dribble { data, len, pos: 0, chunk }) { Ok(r) => r, Err(_) => { assert!(false); return; } };
+	let mut out = [0u8; 12];
+	let total = drain_all(r, &mut out);
+	assert!(total == 2 && out[0] == a && out[1] == b, "UTF-16LE text was not re-encoded to the same text in UTF-8");
+}
+
+/// UTF-16LE `a` `b` (any two printable ASCII characters) with and without BOM, 1 / 2 / 3 / 6 bytes per read: the
+/// reader yields exactly "ab".
+#[kani::proof]
+#[kani::unwind(12)]
+#[kani::stub(std::io::copy, io_copy_contract)]
+fn encoder_from_reader_utf16le_reencoded() {
+	let a: u8 = kani::any(); let b: u8 = kani::any();
+	kani::assume(a >= 0x20 && a < 0x7f && b >= 0x20 && b < 0x7f);
+	utf16_case(true, a, b, 1);
+	utf16_case(false, a, b, 1);
+	utf16_case(false, a, b, 3);
+	utf16_case(true, a, b, 2);
+	utf16_case(true, a, b, 6);
+}
